@@ -127,7 +127,10 @@ def observe(obj, kind, reused=None, sibs=True):
                     low.remove(obj)
         except Exception as e:
             rw = "raised:" + type(e).__name__
-    return {"card": py2card(getattr(obj, ATTR[kind])), "count": count_of(obj, kind), "warn": warn, "rwarn": rw, "sibs": sibs}
+    def tok(v):
+        # one type for the judge (TLC cannot compare a string with a boolean): "yes" / "no" / what went wrong
+        return "yes" if v is True else "no" if v is False else str(v)
+    return {"card": py2card(getattr(obj, ATTR[kind])), "count": count_of(obj, kind), "warn": tok(warn), "rwarn": tok(rw), "sibs": sibs}
 
 
 def saveload(obj, kind, fmt):
